@@ -22,7 +22,8 @@ pub fn kestrel_bin() -> PathBuf { PathBuf::from(std::env::var("KESTREL_BIN").unw
 pub enum In { Null, Bytes(Vec<u8>), File(PathBuf), Closed, /// a real pipe, written in pieces of the given sizes (short reads on the other side)
     Pipe(Vec<u8>, Vec<usize>) }
 #[derive(Clone, Debug, PartialEq)]
-pub enum Out { Capture, File(PathBuf), DevFull, ClosedPipe, Null }
+pub enum Out { Capture, File(PathBuf), DevFull, ClosedPipe, Null, /// a real pipe drained by a reader thread (stdout is then not a regular file)
+    PipeCapture }
 #[derive(Clone, Debug)]
 pub struct Cmd { pub args: Vec<OsString>, pub env: Vec<(String, String)>, pub stdin: In, pub stdout: Out, pub cwd: PathBuf, pub timeout_ms: u64,
     /// largest file the process may write, in 512-byte blocks (a write beyond it fails with EFBIG): a full disk / quota in miniature
@@ -33,9 +34,11 @@ pub struct Cmd { pub args: Vec<OsString>, pub env: Vec<(String, String)>, pub st
     pub fifos: Vec<(String, Vec<u8>, Vec<usize>)>,
     /// run the tool on a pseudo-terminal (through script(1)) and type these lines at its prompts; stdout and stderr of the tool
     /// then both go to the terminal and are returned together in `stdout`
-    pub pty_lines: Option<Vec<String>> }
+    pub pty_lines: Option<Vec<String>>,
+    /// named pipes created in the working directory and drained by a reader for as long as the tool runs; what arrived is returned in `Run::fifo_out`
+    pub out_fifos: Vec<String> }
 #[derive(Clone, Debug)]
-pub struct Run { pub code: Option<i32>, pub signal: Option<i32>, pub stdout: Vec<u8>, pub stderr: Vec<u8>, pub timed_out: bool }
+pub struct Run { pub code: Option<i32>, pub signal: Option<i32>, pub stdout: Vec<u8>, pub stderr: Vec<u8>, pub timed_out: bool, pub fifo_out: Vec<Vec<u8>> }
 impl Run {
     pub fn stderr_s(&self) -> String { String::from_utf8_lossy(&self.stderr).into_owned() }
     pub fn stdout_s(&self) -> String { String::from_utf8_lossy(&self.stdout).into_owned() }
@@ -76,6 +79,18 @@ pub fn run(c: &Cmd) -> Run {
             unsafe { let fd = std::os::fd::AsRawFd::as_raw_fd(&f); let fl = libc::fcntl(fd, libc::F_GETFL); libc::fcntl(fd, libc::F_SETFL, fl & !libc::O_NONBLOCK); }
             let mut off = 0; let mut i = 0; while off < data.len() { let n = sizes.get(i).copied().unwrap_or(usize::MAX).max(1).min(data.len() - off); if f.write_all(&data[off..off + n]).is_err() { break; } off += n; i += 1; if i < 6 { std::thread::sleep(std::time::Duration::from_millis(40)); } } })));
     }
+    let mut fifo_readers = Vec::new();
+    for name in &c.out_fifos {
+        use std::os::unix::fs::OpenOptionsExt;
+        let path = c.cwd.join(name); let cp = std::ffi::CString::new(path.to_string_lossy().as_bytes()).unwrap();
+        unsafe { libc::mkfifo(cp.as_ptr(), 0o600); }
+        // the read end is open before the tool starts, so its open-for-writing never blocks
+        let f = std::fs::OpenOptions::new().read(true).custom_flags(libc::O_NONBLOCK).open(&path);
+        let done = std::sync::Arc::new(std::sync::atomic::AtomicBool::new(false)); let d2 = done.clone();
+        fifo_readers.push((done, std::thread::spawn(move || { use std::io::Read; let mut got = Vec::new(); let mut f = match f { Ok(f) => f, Err(_) => return got }; let mut buf = vec![0u8; 65536];
+            loop { match f.read(&mut buf) { Ok(0) => { if d2.load(Ordering::Relaxed) { break; } std::thread::sleep(std::time::Duration::from_millis(1)); } Ok(n) => got.extend_from_slice(&buf[..n]), Err(e) if e.kind() == std::io::ErrorKind::WouldBlock || e.kind() == std::io::ErrorKind::Interrupted => { if d2.load(Ordering::Relaxed) { break; } std::thread::sleep(std::time::Duration::from_millis(1)); } Err(_) => break } }
+            got })));
+    }
     if let Some(lines) = &c.pty_lines { let p = io.join("typed"); let _ = std::fs::write(&p, lines.iter().map(|l| format!("{}\n", l)).collect::<String>()); cmd.stdin(std::fs::File::open(&p).map(Stdio::from).unwrap_or_else(|_| Stdio::null())); }
     else { match &c.stdin {
         In::Null | In::Closed => { cmd.stdin(Stdio::null()); }
@@ -89,10 +104,12 @@ pub fn run(c: &Cmd) -> Run {
         Out::File(p) => { cmd.stdout(std::fs::File::create(p).map(Stdio::from).unwrap_or_else(|_| Stdio::null())); }
         Out::DevFull => { cmd.stdout(std::fs::OpenOptions::new().write(true).open("/dev/full").map(Stdio::from).unwrap_or_else(|_| Stdio::null())); }
         Out::Null => { cmd.stdout(Stdio::null()); }
+        Out::PipeCapture => { cmd.stdout(Stdio::piped()); }
         Out::ClosedPipe => { let mut fds = [0i32; 2]; unsafe { libc::pipe2(fds.as_mut_ptr(), libc::O_CLOEXEC); } closed_reader = Some(fds[0]); cmd.stdout(unsafe { <Stdio as std::os::fd::FromRawFd>::from_raw_fd(fds[1]) }); }
     }
     cmd.stderr(std::fs::File::create(io.join("stderr")).map(Stdio::from).unwrap_or_else(|_| Stdio::null()));
-    let mut child = match cmd.spawn() { Ok(c) => c, Err(e) => { let _ = std::fs::remove_dir_all(&io); return Run { code: None, signal: None, stdout: vec![], stderr: format!("spawn failed: {}", e).into_bytes(), timed_out: false } } };
+    let mut child = match cmd.spawn() { Ok(c) => c, Err(e) => { let _ = std::fs::remove_dir_all(&io); for (d, _) in &fifo_readers { d.store(true, Ordering::Relaxed); } return Run { code: None, signal: None, stdout: vec![], stderr: format!("spawn failed: {}", e).into_bytes(), timed_out: false, fifo_out: vec![] } } };
+    let drain = if c.stdout == Out::PipeCapture { child.stdout.take().map(|mut so| std::thread::spawn(move || { use std::io::Read; let mut v = Vec::new(); let _ = so.read_to_end(&mut v); v })) } else { None };
     let feeder = if let In::Pipe(data, sizes) = &c.stdin { child.stdin.take().map(|mut si| { let (data, sizes) = (data.clone(), sizes.clone()); std::thread::spawn(move || { use std::io::Write; let mut off = 0; let mut i = 0;
         while off < data.len() { let n = sizes.get(i).copied().unwrap_or(usize::MAX).max(1).min(data.len() - off); if si.write_all(&data[off..off + n]).is_err() { break; } let _ = si.flush(); off += n; i += 1; // the tool first unlocks a key (about 130 ms of scrypt) and only then reads: pieces are spaced so that
             // later ones arrive while it is already reading, which gives it short reads
@@ -106,10 +123,12 @@ pub fn run(c: &Cmd) -> Run {
     let timed_out = watchdog_remove(pid);
     if let Some(f) = feeder { let _ = f.join(); }
     for (done, t) in fifo_feeders { done.store(true, Ordering::Relaxed); let _ = t.join(); }
-    let stdout = if c.stdout == Out::Capture { std::fs::read(io.join("stdout")).unwrap_or_default() } else { vec![] };
+    // the writer is gone: one more pass picks up what is still in the pipe, then the readers stop
+    let fifo_out: Vec<Vec<u8>> = fifo_readers.into_iter().map(|(done, t)| { std::thread::sleep(std::time::Duration::from_millis(3)); done.store(true, Ordering::Relaxed); t.join().unwrap_or_default() }).collect();
+    let stdout = if c.stdout == Out::Capture { std::fs::read(io.join("stdout")).unwrap_or_default() } else if let Some(d) = drain { d.join().unwrap_or_default() } else { vec![] };
     let stderr = std::fs::read(io.join("stderr")).unwrap_or_default();
     let _ = std::fs::remove_dir_all(&io);
-    Run { code: status.and_then(|s| s.code()), signal: status.and_then(|s| s.signal()), stdout, stderr, timed_out }
+    Run { code: status.and_then(|s| s.code()), signal: status.and_then(|s| s.signal()), stdout, stderr, timed_out, fifo_out }
 }
 
 static DIR_SEQ: AtomicU64 = AtomicU64::new(0);
@@ -123,7 +142,7 @@ impl Sandbox {
     pub fn path(&self, name: &str) -> PathBuf { self.dir.join(name) }
     pub fn write(&self, name: &str, data: &[u8]) -> PathBuf { let p = self.path(name); std::fs::write(&p, data).expect("write temp file"); p }
     pub fn read(&self, name: &str) -> Option<Vec<u8>> { std::fs::read(self.path(name)).ok() }
-    pub fn cmd(&self, a: &[&str]) -> Cmd { Cmd { args: args(a), env: vec![], stdin: In::Null, stdout: Out::Capture, cwd: self.dir.clone(), timeout_ms: 60_000, fsize_blocks: None, env_os: vec![], fifos: vec![], pty_lines: None } }
+    pub fn cmd(&self, a: &[&str]) -> Cmd { Cmd { args: args(a), env: vec![], stdin: In::Null, stdout: Out::Capture, cwd: self.dir.clone(), timeout_ms: 60_000, fsize_blocks: None, env_os: vec![], fifos: vec![], pty_lines: None, out_fifos: vec![] } }
 }
 impl Drop for Sandbox { fn drop(&mut self) { let _ = std::fs::remove_dir_all(&self.dir); } }
 impl Cmd {
